@@ -345,8 +345,8 @@ let wire_suite () =
            emit (Printf.sprintf "S %d %d %s -" i (if body = "-" then 1 else 0) (if kind = "FP" then "C10fault" else "C04fault"))
          | Some (`Case (key, b)) ->
            let cfgs = List.concat_map (fun k -> List.concat_map (fun v -> List.concat_map (fun u -> List.map (fun nn_ -> (k, v, u, nn_)) [false; true]) [false; true]) [false; true]) [false; true] in
-           let rs = decode dec_ok_basic None b ::
-                    List.map (fun (k, v, u, nn_) -> decode dec_ok_basic (Some { w_key = (if k then Some key else None); w_opts = opts_of v u nn_ }) b) cfgs in
+           let rs = decode dec_ok_full None b ::
+                    List.map (fun (k, v, u, nn_) -> decode dec_ok_full (Some { w_key = (if k then Some key else None); w_opts = opts_of v u nn_ }) b) cfgs in
            if List.exists (fun r -> r = WUnmodelled) rs then emit (Printf.sprintf "M %d UNMODELLED" i)
            else emit (Printf.sprintf "M %d %s" i (String.concat "|" (List.map render_wres rs)));
            let obs = List.map parse_ores (String.split_on_char '|' body) in
@@ -468,6 +468,7 @@ let render_vres f = function
 
 let attrval_suite () =
   let idx = ref 0 in
+  let is_enc = ref false in
   let pending = ref None in
   (try
     while true do
@@ -476,9 +477,11 @@ let attrval_suite () =
       if n > 2 && line.[0] = 'C' then begin
         match split_sp line with
         | [_; "D"; ud; txid; ty; v] ->
+          is_enc := false;
           pending := Some (fun () ->
               render_vres render_aval (av_case_dec (ud = "1") (bytes_of_hex txid) (n_of_int (int_of_string ty)) (bytes_of_hex v)))
         | [_; "E"; txid; ty; tok; room] ->
+          is_enc := true;
           pending := Some (fun () ->
               render_vres hex_of_bytes
                 (av_case_enc (bytes_of_hex txid) (n_of_int (int_of_string ty)) (parse_aval tok) (n_of_int (int_of_string room))))
@@ -488,7 +491,9 @@ let attrval_suite () =
         | None -> failwith "I without C"
         | Some f ->
           let i = !idx in incr idx;
-          emit (Printf.sprintf "M %d %s" i (f ()));
+          let mres = f () in
+          emit (Printf.sprintf "M %d %s" i mres);
+          if !is_enc && mres <> "UNMODELLED" then emit (Printf.sprintf "S %d %d C02 -" i (if mres = String.sub line 2 (n - 2) then 1 else 0));
           let nopanic = not (n >= 7 && String.sub line 2 5 = "PANIC") in
           emit (Printf.sprintf "S %d %d C03val -" i (if nopanic then 1 else 0));
           pending := None
@@ -587,6 +592,89 @@ let valueapi_suite () =
     done
   with End_of_file -> ())
 
+(* ---------------------------------------------------------------- suite: codecrt *)
+let rec take_n k l = if k <= 0 then [] else match l with [] -> [] | x :: r -> x :: take_n (k - 1) r
+let codecrt_suite () =
+  let idx = ref 0 in
+  let pending = ref None in
+  let last = ref None in
+  (try
+    while true do
+      let line = input_line stdin in
+      let n = String.length line in
+      if n > 2 && line.[0] = 'C' then begin
+        match split_sp line with
+        | [_; "Q"; ty; input] -> pending := Some (`Ctor (nn ty, bytes_of_hex input))
+        | _ :: m :: c :: txid :: specs ->
+          let attrs = List.filter_map (fun sp ->
+              if sp = "-" then None else
+              let r = String.sub sp 1 (String.length sp - 1) in
+              Some (match sp.[0] with
+                  | 'v' -> (match String.index_opt r ':' with
+                            | Some i -> TVal (nn (String.sub r 0 i), parse_aval (String.sub r (i+1) (String.length r - i - 1)))
+                            | None -> failwith "spec")
+                  | 'm' -> TMi (bytes_of_hex r) | 's' -> TSha (bytes_of_hex r) | _ -> TFp)) specs in
+          pending := Some (`Msg { t_method = nn m; t_class = nn c; t_txid = bytes_of_hex txid; t_attrs = attrs })
+        | _ -> failwith "bad record"
+      end else if n >= 2 && line.[0] = 'I' then begin
+        match !pending with
+        | None -> failwith "I without C"
+        | Some (`Ctor (cty, input)) ->
+          let i = !idx in incr idx;
+          (match ctor_of cty input with
+           | VOk q -> emit (Printf.sprintf "M %d OK %s rt=%d" i (hex_of_bytes q) (if quoted_roundtrips q then 1 else 0))
+           | VErr -> emit (Printf.sprintf "M %d REJ" i)
+           | VPanic -> emit (Printf.sprintf "M %d PANIC" i)
+           | VUnmodelled -> emit (Printf.sprintf "M %d UNMODELLED" i));
+          (* C01 on the implementation: an accepted value must survive the round trip; the class tag comes from the model *)
+          let body = String.sub line 2 (n - 2) in
+          let ok = body = "REJ" || (String.length body > 5 && String.sub body (String.length body - 4) 4 = "rt=1") in
+          emit (Printf.sprintf "S %d %d C01 %s" i (if ok then 1 else 0) (if int_of_n (ctor_class cty input) = 1 then "quoted-ctor-noncanonical" else "-"));
+          last := None;
+          pending := None
+        | Some (`Msg tm) ->
+          let i = !idx in incr idx;
+          let buf = List.init 16000 (fun _ -> small_n.(0x5A)) in
+          (match encode_typed buf tm with
+           | TOk (out, size) ->
+             let bytes = take_n (int_of_n size) out in
+             let dec = match decode_typed bytes with
+               | DOk (_, attrs) ->
+                 if attrs = [] then "-" else String.concat " " (List.map (fun (ty, r) ->
+                     Printf.sprintf "%d:%s" (int_of_n ty) (match r with VOk a -> render_aval a | VErr -> "ERR" | VPanic -> "PANIC" | VUnmodelled -> "UNMODELLED")) attrs)
+               | DErr -> "DECERR" | DPanic -> "DECPANIC" | DUnmodelled -> "UNMODELLED" in
+             let enc_part = Printf.sprintf "OK %d %s" (int_of_n size) (md5_of_bytes bytes) in
+             let body = String.sub line 2 (n - 2) in
+             let impl_enc = match String.index_opt body ';' with Some k -> String.sub body 0 k | None -> body in
+             emit (Printf.sprintf "S %d %d C02 -" i (if impl_enc = enc_part then 1 else 0));
+             if dec = "UNMODELLED" then emit (Printf.sprintf "M %d UNMODELLED" i)
+             else emit (Printf.sprintf "M %d %s;%s" i enc_part dec)
+           | TErr -> emit (Printf.sprintf "M %d ENCERR" i)
+           | TPanic -> emit (Printf.sprintf "M %d PANIC" i)
+           | TUnmodelled -> emit (Printf.sprintf "M %d UNMODELLED" i));
+          (* C01 speaks of values within their documented limits: av_wf; a canonical-form failure of a quoted string is the
+             known constructor class, anything else outside the limits (e.g. a non-ASCII user name) is not judged *)
+          let wf = List.for_all (function TVal (ty, a) -> av_wf ty a | _ -> true) tm.t_attrs in
+          let quoted_bad = List.exists (function TVal (ty, AvQuoted q) -> not (av_wf ty (AvQuoted q)) | _ -> false) tm.t_attrs in
+          last := Some (i, n >= 5 && String.sub line 2 2 = "OK", (if wf then `Judge else if quoted_bad then `Known else `Skip));
+          pending := None
+      end else if n >= 1 && line.[0] = 'J' then begin
+        match !last with
+        | Some (i, encoded, mode) ->
+          let facts = List.filter_map (fun t -> match String.split_on_char '=' t with [a; v] -> Some (a, v) | _ -> None) (split_sp (if n > 2 then String.sub line 2 (n - 2) else "")) in
+          let geti k = try nn (List.assoc k facts) with Not_found -> nn "0" in
+          let rt = (try List.assoc "rt" facts = "1" with Not_found -> false) in
+          let v = monitor_C01 encoded rt (geti "size") (geti "decsize") (geti "hdrlen") in
+          (match mode with
+           | `Judge -> emit (Printf.sprintf "S %d %d C01 -" i (if v then 1 else 0))
+           | `Known -> emit (Printf.sprintf "S %d %d C01 quoted-ctor-noncanonical" i (if v then 1 else 0))
+           | `Skip -> emit (Printf.sprintf "S %d 1 C01 outside-documented-limits" i));
+          last := None
+        | None -> ()
+      end
+    done
+  with End_of_file -> ())
+
 let () =
   (match Sys.argv with
    | [| _; "filter" |] -> filter_suite ()
@@ -595,6 +683,7 @@ let () =
    | [| _; "wire" |] -> wire_suite ()
    | [| _; "encbuf" |] -> encbuf_suite ()
    | [| _; "valueapi" |] -> valueapi_suite ()
+   | [| _; "codecrt" |] -> codecrt_suite ()
    | [| _; "attrval" |] -> attrval_suite ()
    | _ -> prerr_endline "usage: driver <suite> < cases"; exit 2);
   flush_out ()
